@@ -335,6 +335,44 @@ def k_rows_ctor(recv, mutable):
     return k
 
 
+# ---- C13 (and through it C04, C17): swap_rows overrides -------------------------------------------
+
+def k_swap_rows(recv):
+    tyre = {"owned": r"toodee::TooDee<T>$", "viewmut": r"view::TooDeeViewMut<'_, T>$"}[recv]
+
+    def find(fns):
+        return find_fn(fns, "::swap_rows", r"^&mut .*" + tyre, 3, r"^usize$")
+
+    def build(ctx):
+        r, d = owned(ctx) if recv == "owned" else view(ctx, "TooDeeViewMut")
+        a, b = ctx.int("r1"), ctx.int("r2")
+        d.update(r1=a, r2=b)
+        return [r, Int(a), Int(b)], d
+
+    def post(kind, events, value, d):
+        r1, r2, R, C, S, L = d["r1"], d["r2"], d["R"], d["C"], d["S"], d["L"]
+        inr = f"(and (< {r1} {R}) (< {r2} {R}))"
+        if kind == "panic":
+            return f"(not {inr})"
+        if kind != "return":
+            return "false"
+        sw = [e for e in events if e[0] == "swapn"]
+        if not sw:
+            # nothing exchanged: only legal when both indices name the same (valid) row
+            return f"(and {inr} (= {r1} {r2}) {no_ub(events)})"
+        if len(sw) != 1:
+            return "false"
+        _, pa, pb, n, la, lb = sw[0]
+        lo = f"(ite (< {r1} {r2}) {r1} {r2})"
+        hi = f"(ite (< {r1} {r2}) {r2} {r1})"
+        return (f"(and {inr} (distinct {r1} {r2}) (= {n} {C}) (= {pa} (* {lo} {S})) (= {pb} (* {hi} {S})) "
+                f"(<= (+ {pb} {C}) {L}) {no_ub(events)})")
+
+    return Kernel(f"swap_rows_{recv}", "C13", find, build, post,
+                  f"swap_rows on {recv}: returns iff both rows are in range; exchanges exactly num_cols cells at r1*stride and r2*stride",
+                  replay=("b_swap_rows", recv))
+
+
 # ---- C03: view window computation ----------------------------------------------------------------
 
 def k_view_dims(parent):
@@ -540,6 +578,8 @@ def all_kernels():
     ks.append(k_view_dims("view"))
     for w in ("new", "init", "from_vec", "view_new", "viewmut_new"):
         ks.append(k_ctor(w))
+    ks.append(k_swap_rows("owned"))
+    ks.append(k_swap_rows("viewmut"))
     for recv in ("owned", "view", "viewmut"):
         for which in ("cell", "row"):
             ks.append(k_unchecked(recv, which, False))
